@@ -244,9 +244,30 @@ pub(crate) fn list_of_formal_arguments(s: Span) -> IResult<Span, ListOfFormalArg
 #[tracable_parser]
 #[packrat_parser]
 pub(crate) fn formal_argument(s: Span) -> IResult<Span, FormalArgument> {
-    let (s, a) = simple_identifier(s)?;
+    let (s, a) = formal_argument_identifier(s)?;
     let (s, b) = opt(pair(symbol("="), default_text))(s)?;
     Ok((s, FormalArgument { nodes: (a, b) }))
+}
+
+// Only the macro name must not be the name of a compiler directive; a formal argument may be
+// spelled like one (`define ERR(line, msg) ...), so it is not looked up in the keyword set
+// that is in force for the macro name.
+#[tracable_parser]
+pub(crate) fn formal_argument_identifier(s: Span) -> IResult<Span, SimpleIdentifier> {
+    let (s, a) = ws(formal_argument_identifier_impl)(s)?;
+    Ok((s, SimpleIdentifier { nodes: a }))
+}
+
+#[tracable_parser]
+pub(crate) fn formal_argument_identifier_impl(s: Span) -> IResult<Span, Locate> {
+    let (s, a) = is_a(AZ_)(s)?;
+    let (s, b) = opt(is_a(AZ09_DOLLAR))(s)?;
+    let a = if let Some(b) = b {
+        concat(a, b).unwrap()
+    } else {
+        a
+    };
+    Ok((s, into_locate(a)))
 }
 
 #[tracable_parser]
